@@ -138,6 +138,7 @@ type Macro struct {
 	Ret    string // "" for pred (bool)
 	Body   SExpr
 	Rec    bool
+	Opaque bool
 	Pkg    string
 }
 
@@ -610,7 +611,7 @@ var clauseKeywords = map[string]bool{
 	"decreases": true, "trusted": true, "pure": true, "pred": true, "fn": true,
 	"lemma": true, "axiom": true, "call": true, "assert": true, "abstracts": true,
 	"props": true, "uses": true, "noinline": true, "ghost": true, "induct": true,
-	"package": true, "recfn": true, "bounded": true, "use": true, "pattern": true,
+	"package": true, "recfn": true, "opred": true, "bounded": true, "use": true, "pattern": true,
 }
 
 func firstWord(s string) string {
@@ -676,7 +677,7 @@ func parseSpecFile(path, pkgPath string) (*SpecFile, error) {
 			}
 			sf.Contracts = append(sf.Contracts, c)
 			cur = c
-		case "pred", "fn", "recfn":
+		case "pred", "fn", "recfn", "opred":
 			m, err := parseMacro(w, rest)
 			if err != nil {
 				return nil, fail(i, "%v", err)
@@ -987,7 +988,7 @@ func parseMacro(kind, s string) (*Macro, error) {
 	if op < 0 || cp < 0 {
 		return nil, fmt.Errorf("macro params")
 	}
-	m := &Macro{Name: strings.TrimSpace(head[:op]), Rec: kind == "recfn"}
+	m := &Macro{Name: strings.TrimSpace(head[:op]), Rec: kind == "recfn", Opaque: kind == "opred"}
 	ps := strings.TrimSpace(head[op+1 : cp])
 	if ps != "" {
 		toks, err := lexSpec(ps)
